@@ -8,6 +8,7 @@ CONSTANTS Names <- NamesAll
           Variants <- VariantsAll
           HarmTypes = {"file"}
           MaxEntries = 3
+          Reuse <- ReuseNone
           Devs = {}
 INVARIANTS Confined NoStrayTouch NoTempLeft DoneClean WellFormed
 CHECK_DEADLOCK FALSE
